@@ -60,6 +60,21 @@ claimed = {
         text="input.Merge and its helpers executed symbolically on three symbolic inputs: associativity, identity of the empty file and the per-attribute laws (later scalar wins, maps united with later values winning, non-empty arguments replace, calls/tags/decorators append) are solver obligations over all nil-patterns and symbolic contents within the bound.",
         note="Trusted: executor, solvers. The file-order fold of StepReadConfig is checked under C10's environment stubs; byte-identity of split vs unsplit output follows from these laws plus C08 and is not rendered.",
         design="5.9"),
+    "C10": dict(
+        level="model_checking",
+        text="The real RunE of `gontainer build` is executed symbolically on the wiring as shipped (internal/gontainer.New runs on a model of the runtime container), over a schedule of symbolic faults (glob/read/YAML/gofmt/goimports/write), file layouts (incl. a file under two patterns, empty glob), configurations of every defect class and --stub/--quiet. Asserted: exit 0 iff exactly one successful write of the complete text as the last effect; otherwise nothing written, a numbered list with as many lines as the failing step's count; --quiet prints nothing and changes neither verdict nor file effect (2-safety).",
+        note="Trusted: environment stubs (all-or-nothing WriteFile; template executor opaque; gofmt/goimports fail-or-identity), cobra/pflag/color stubs, the runtime-container model (checked every run: the whole command's stdout must equal the native run's). argv parsing and main's exit-code mapping are outside.",
+        design="5.10"),
+    "C12": dict(
+        level="model_checking",
+        text="Panic-, bounds-, nil- and unwinding obligations are attached to every instruction the engine executes; dedicated harnesses feed the custom YAML unmarshalers every value tree (depth 2) and decoder failure, and run validate -> compile -> output validators with arbitrary strings and any-typed values in each position, plus the aligned printer for all shipped step names and depths. Reaching the end on every feasible path is the claim: total after YAML decoding, up to the stubs.",
+        note="Trusted: yaml.v3's own parser, gonum, text/template, go/format are behind stubs, so arbitrary bytes before decoding are outside. Bounds: strings <= 3 (quick) / 4 (thorough).",
+        design="5.12"),
+    "C16": dict(
+        level="model_checking",
+        text="On the shipped wiring (as C10) each of 7 configurations is run without flags and with symbolic --ignore-missing-params / --ignore-missing-services; the diagnostics with flags must equal the flag-less diagnostics minus exactly the ignored class, in the same order; accepted iff that remainder is empty; a configuration accepted without flags yields the same written text under any flags.",
+        note="As C10. The instance switched by Active is the instance the runner holds because the model caches decorated services like the runtime does (validated against the native run).",
+        design="5.16"),
     "C11": dict(
         level="model_checking",
         text="Each grammar position (24 of them) gets one unconstrained symbolic string; the real validator (and the whole default validator) is executed symbolically and 'accepted iff in the documented language' is an equivalence the solver must prove for every string up to the bound, over all of Unicode. A one-character regex edit changes the RegLan term that is regenerated from the compiled program on every run. Joint reporting and the todo exemption are asserted the same way.",
